@@ -5,6 +5,8 @@ Bounded exhaustive enumeration on the real engine, differential oracle STRICT vs
   T   every sequence of <= k whole tags (orphans, unbalanced / mis-nested blocks, unknown tags,
       malformed partials, malformed ``liquid`` lines); TX the same over the inheritance / macro /
       with / translate tags of the extra environment;
+  Td/TXd/Id  tag sequences of <= k-1 tags with literal text before / between / after the tags in every
+      combination (e.g. an unclosed block followed by text that runs to the last character);
   I   the T sources of <= k-1 tags through the module-level ``liquid.Template(source, tolerance=...)``;
   E   every expression head x every sequence of <= k expression tokens;
   G   the generated well-formed programs;   Gm  every single-deviation mutant of them.
@@ -39,6 +41,9 @@ FAMILY_DATA = {
     "T": ("D0", "D1", "D2"),
     "TX": ("D0", "D2"),
     "I": ("D0", "D2"),
+    "Td": ("D0", "D1", "D2"),
+    "TXd": ("D0", "D2"),
+    "Id": ("D0", "D2"),
     "E": ("D0", "D1", "D2", "D4"),
     "G": ("D0", "D1", "D2", "D3", "D4", "D5"),
     "Gm": ("D0", "D1", "D2", "D3", "D4", "D5"),  # thorough; quick uses GM_QUICK_DATA
@@ -98,7 +103,7 @@ class C03(Check):
     id = "C03"
     level = "exploration"
     rule = (
-        "Every source of the complete families (M: <=k fragments; T/TX/I: <=k whole tags; E: each expression head x "
+        "Every source of the complete families (M: <=k fragments; T/TX/I: <=k whole tags; Td/TXd/Id: <=k-1 tags x every placement of literal text; E: each expression head x "
         "<=k expression tokens; G: generated programs; Gm: every single-deviation mutant of each program) that the "
         "template lexer accepts is parsed and rendered under STRICT, WARN and LAX with each data set of the family. "
         "A case (env, source, data) is non-trivial when a mode mattered: lax mode suppressed >= 1 error (clauses 1-3 "
@@ -126,6 +131,7 @@ class C03(Check):
             "tag_sequence_k": 3 if q else 4,
             "tag_alphabet": len(CG.TAGS_QUICK if q else CG.TAGS),
             "implicit_env_tag_sequence_k": 2 if q else 3,
+            "text_decorated_tag_sequence_k": {"Td": 2 if q else 3, "TXd": 2 if q else 3, "Id": 2},
             "tag_alphabet_extra_env": len(CG.TAGS_X_QUICK if q else CG.TAGS_X),
             "expr_k": 2 if q else 3,
             "expr_alphabet": len(CG.ETOKENS_QUICK if q else CG.ETOKENS),
@@ -160,6 +166,13 @@ class C03(Check):
         tags_x = CG.TAGS_X_QUICK if q else CG.TAGS_X
         for i in range(len(tags_x)):
             sh.append(("TX", 3 if q else 4, i))
+        kd = 2 if q else 3
+        for i in range(len(tags)):
+            sh.append(("Td", "D", kd, i))
+        for i in range(len(tags_x)):
+            sh.append(("TXd", "X", kd, i))
+        for i in range(len(tags)):
+            sh.append(("Id", "I", 2, i))
         for i in range(len(CG.HEADS)):
             if q:
                 sh.append(("E", 2, i, None))
@@ -189,6 +202,14 @@ class C03(Check):
             tags = CG.TAGS_QUICK if tier == "quick" else CG.TAGS
             for src in CG.tag_sequences(k, tags, first):
                 self.run_source(res, "I", "I", src)
+        elif kind in ("Td", "TXd", "Id"):
+            _, ek, k, first = shard
+            if ek == "X":
+                tags = CG.TAGS_X_QUICK if tier == "quick" else CG.TAGS_X
+            else:
+                tags = CG.TAGS_QUICK if tier == "quick" else CG.TAGS
+            for src in CG.decorated_sequences(k, tags, first):
+                self.run_source(res, kind, ek, src)
         elif kind == "TX":
             _, k, first = shard
             tags = CG.TAGS_X_QUICK if tier == "quick" else CG.TAGS_X
